@@ -44,6 +44,26 @@ CHECKS = {
             "Tens of thousands of generated structures with adversarial keys (quotes, brackets, separators, JSON-looking strings, int vs digit-string) and leafless sub-dicts; module graphs mixing tensors, modules, dicts, lists, tuples and non-tensors.",
             "Sets are not generated; keys are valid unicode text (no lone surrogates) or integers.",
             "6/C16"),
+    "C14": ("exploration",
+            "Hypothesis lists of block sizes x group sizes plus an exhaustively enumerated palette grid, against a naive list-scheduling reference model, independent balance predicates with an exact branch-and-bound optimum, a three-way differential between the DDP/HSDP/HybridShard copies, and byte-interval predicates on the buffer views",
+            "The assignment must equal the naive largest-first/least-loaded/lowest-rank reference exactly; spread and 4/3-OPT bounds are checked independently; buffer views must be aligned, inside the owner's segment and disjoint. Simulator-side ownership checks are part of the C06-C08 worlds.",
+            "Methods are called unbound on a stub carrying only the group size; exact optimum only for <= 11 blocks.",
+            "6/C14"),
+    "C17": ("exploration",
+            "exhaustive 1- and 2-at-a-time value grid (interior, boundary, nextafter-outside, far outside, NaN, inf) around three baselines plus Hypothesis k-at-a-time cross product, against an acceptance predicate written from the documentation; config-class tables for grafting / preconditioner / unsupported types",
+            "Every grid combination is constructed; acceptance must equal the documented predicate, rejection must be ValueError (NotImplementedError for unsupported config types), and the -1 defaults must be resolved as documented.",
+            "The predicate `accept` in vf/props/c17.py is the documented domain; value tables are finite.",
+            "6/C17"),
+    "C05": ("exploration",
+            "exhaustive small-shape grid + Hypothesis shapes for the structural validity predicate (views, exact cover, row-major order, size limit, merge rule as a predicate, gradient blocks) and a metamorphic differential (blocked tensor vs pre-split blocks as separate parameters) over generated histories",
+            "Structure is checked on arange-filled parameters through the real Distributor; the metamorphic relation runs both optimizers on the same history and compares per block within a stated, conditioning-aware rounding bound.",
+            "Reference block enumeration is the harness's own; metamorphic comparison becomes uninformative (reported) when the amortized computation is ill-conditioned.",
+            "6/C05"),
+    "C02": ("exploration",
+            "differential against torch.optim SGD/Adagrad/RMSprop/Adam/AdamW over generated hyperparameters, shapes, blockings and presence patterns; validity predicate for the norm transfer (update norm = lr * grafted norm, cosine 1 with the Shampoo direction) recomputed from stored state",
+            "Trajectories must agree with PyTorch's own optimizers within a path-length-relative bound during warm-up; after the start step every block's update norm and direction are checked.",
+            "Domain restricted to where both formulations are mathematically identical (dampening 0, all-or-nothing presence for bias-corrected / momentum variants).",
+            "6/C02"),
 }
 
 PENDING_REASON = "check not built yet at this commit (work in progress; all eighteen properties are planned to be claimed, see DESIGN.md section 0)"
